@@ -73,3 +73,10 @@ pub fn control_p3_clear_before_write(e: &mut CtlEditor, d: &mut Dev, buf: &[u8])
 pub fn control_p4_flush_impl(d: &mut Dev) -> Result<(), DevErr> {
     Ok(())
 }
+
+// ---- C12
+/// Q1 control: a device write with no dirty-flag role (not flagged, not latch-guarded)
+pub fn control_q1_unflagged_write(fs: &CtlFs, buf: &[u8]) -> Result<usize, DevErr> {
+    let mut d = fs.disk.borrow_mut();
+    Write::write(&mut *d, buf)
+}
